@@ -292,10 +292,12 @@ impl<'de, 't, 'a> de::Deserializer<'de> for &'a mut Deserializer<'de, 't> {
                     typ: &typ,
                     ..self.clone()
                 };
+                // A record is a map from its fields to their values, anything else that is
+                // allocated as data is the constructor of a variant
                 if let Type::Record(_) = **typ {
-                    deserializer.deserialize_enum("", &[], visitor)
-                } else {
                     deserializer.deserialize_map(visitor)
+                } else {
+                    deserializer.deserialize_enum("", &[], visitor)
                 }
             }
             ValueRef::Float(_) => self.deserialize_f64(visitor),
@@ -561,6 +563,11 @@ impl<'de, 't, 'a> de::Deserializer<'de> for &'a mut Deserializer<'de, 't> {
                     None => self.deserialize_any(visitor),
                 }
             }
+            // `deserialize_any` hands arrays back to this function so it can't make progress
+            (ValueRef::Array(_), _) => Err(VmError::Message(format!(
+                "Unable to deserialize `{}` as a sequence",
+                self.typ
+            ))),
             _ => self.deserialize_any(visitor),
         }
     }
